@@ -45,6 +45,7 @@ fn main() {
         "eval-replay" => eval::eval_replay(rest),
         "eval-record" => eval::eval_record(rest),
         "determinism-replay" => eval::determinism_replay(rest),
+        "reent-depth" => eval::reent_depth(rest),
         "render-replay" => parse::render_replay(rest),
         "render-record" => parse::render_record(rest),
         "render-one" => parse::render_one(rest),
